@@ -2,30 +2,43 @@
 that very column: same full identifier, or a star over its input that does not itself except it.
 
 Real code under contract:
-  prqlc/prqlc/src/semantic/resolver/transforms.rs  Lineage::apply_assign: body of the closure `|e| match e { .. }` that decides `is_excluded` (slice)
+  prqlc/prqlc/src/semantic/resolver/transforms.rs  Lineage::apply_assign: body of the closure `|e| match e { .. }` that decides `is_excluded` (slice);
+                                                   the arm that subtracts an excluded named column from a star `T.*` (slice)
+  prqlc/prqlc/src/semantic/resolver/inference.rs   Resolver::infer_table_column: the closure that finds an already declared column, the declaration of a new one (slices)
   prqlc/prqlc/src/ir/pl/lineage.rs                 enum LineageColumn (verbatim)
   prqlc/prqlc-parser/src/parser/pr/ident.rs        struct Ident (verbatim)
 """
 import re
 
 import common_rq
+import common_std
 from extract import ExtractionError, code_tokens, match_brace
 
 TRANSFORMS = "prqlc/prqlc/src/semantic/resolver/transforms.rs"
 LINEAGE = "prqlc/prqlc/src/ir/pl/lineage.rs"
 IDENT = "prqlc/prqlc-parser/src/parser/pr/ident.rs"
+INFERENCE = "prqlc/prqlc/src/semantic/resolver/inference.rs"
 
-LABELS = ["LE1", "LE2"]
-FUNCTIONS = ["excludes_one"]
+LABELS = ["LE1", "LE2", "LE3", "IC1", "IC2"]
+FUNCTIONS = ["excludes_one", "except_from_star", "is_column_named", "declare_if_new"]
 RLIMIT = 60
 
 ASSUMED = [
     {"what": "opaque external types", "keys": ["pub struct Opaque"]},
     {"what": "HashSet<String> is the shim StrSet with a ghost set view (contains); derived PartialEq on Option<Ident> is same_ident(): equal path and equal name "
              "(structural equality of the spec values); usize == usize is primitive",
-     "keys": ["struct StrSet", "fn view", "fn contains", "fn opt_ident_eq", "spec fn same_ident"]},
+     "keys": ["struct StrSet", "fn view", "fn contains", "fn insert", "fn opt_ident_eq", "spec fn same_ident"]},
+    {"what": "Ident::iter().next().unwrap() is the first segment of the identifier (ident_first: path[0], or the name of a one-segment identifier); &String == &String / "
+             "&String == &str compare the character sequences; String::clone / str::to_string keep them",
+     "keys": ["fn ident_first", "spec fn first_seg", "fn string_eq", "fn str_eq", "fn clone_string", "fn str_to_string"]},
+    common_std.STR_PREDS_ASSUMPTION,
 ]
 TRUSTED = [
+    "oracle (C16 / C05, LE3): `select !{e.salary}` over `e.*` adds `salary` to the star's exception list exactly when the column is qualified with the LOCAL NAME of the star's "
+    "input (the alias `e`), which is how every column of that input is named in the frame; lowering computes the same exclusion by column id, and the two must agree or the "
+    "final Select refers to a column that is not visible any more",
+    "oracle (C16, IC1 / IC2): a column inferred for a wildcard table is declared once per NAME, compared exactly (PRQL names are case-sensitive everywhere else: a second "
+    "spelling is a second column that needs its own declaration and column id); a new name is appended to the table's columns, an existing one changes nothing",
     "oracle (C05): a known column (LineageColumn::Single) of the relation is removed by an exclusion item only if that item is the same column - the same FULL identifier "
     "(input path and name: `d.id` does not remove `e.id`) - or a star over the column's own input whose exception list does not contain the column's name",
     "precondition (call site, not verified): a column whose target is an input carries its name within the input (target_name is Some) - apply_assign builds such "
@@ -47,6 +60,17 @@ impl StrSet {
 """
 
 SHIMS = r"""
+impl StrSet {
+    #[verifier::external_body] pub fn insert(&mut self, s: String) -> (r: bool) ensures final(self).view() == old(self).view().insert(s), { unimplemented!() }
+}
+pub open spec fn first_seg(i: Ident) -> String { if i.path@.len() > 0 { i.path@[0] } else { i.name } }
+#[verifier::external_body] pub fn ident_first(i: &Ident) -> (r: &String) ensures *r == first_seg(*i), { unimplemented!() }
+#[verifier::external_body] pub fn string_eq(a: &String, b: &String) -> (r: bool) ensures r == (a@ == b@), { unimplemented!() }
+#[verifier::external_body] pub fn str_eq(a: &String, b: &str) -> (r: bool) ensures r == (a@ == b@), { unimplemented!() }
+#[verifier::external_body] pub fn clone_string(s: &String) -> (r: String) ensures r == *s, { unimplemented!() }
+#[verifier::external_body] pub fn str_to_string(s: &str) -> (r: String) ensures r@ == s@, { unimplemented!() }
+pub struct LineageInput { pub id: usize, pub name: String, pub table: Ident }
+pub type Ty = OpaqueT;
 pub open spec fn same_ident(a: Option<Ident>, b: Option<Ident>) -> bool { a == b }
 #[verifier::external_body] pub fn opt_ident_eq(a: &Option<Ident>, b: &Option<Ident>) -> (r: bool) ensures r == same_ident(*a, *b), { unimplemented!() }
 """
@@ -80,7 +104,54 @@ def build(X):
               "        // .. an excluded star removes the columns of its own input, but for the names it excepts itself\n"
               "        e is All ==> r == (*target_id == e->All_input_id && !e->All_except.view().contains(target_name->0)), // @LE2\n"
               "{\n    " + f.text + "\n}\n")
-    return PRELUDE + ident.text + "\n" + lc.text + "\n" + SHIMS + f.text + "\n} // verus!\nfn main() {}\n"
+    # ---- an excluded named column is subtracted from a star of the `within` list
+    ar = X.arm_body(TRANSFORMS, "apply_assign", "name: Some(name), ..", name="except_from_star")
+    ar.drop_attrs()
+    ar.rewrite_re("R5", r"let input = self\.find_input\(input_id\)\.unwrap\(\);\n?", "", count=1, why="the star's input is a parameter of the slice (find_input(..).unwrap(): it exists, see the comment in the code)")
+    ar.rewrite_re("R5", r"\bname\.iter\(\)\.next\(\)\.unwrap\(\)", "ident_first(name)", count=None, why="first segment of an identifier")
+    ar.rewrite_re("R5", r"\b(\w+) == &input\.((?:\w+\.)*\w+)", r"string_eq(\1, &input.\2)", count=None, why="&String == &String")
+    ar.rewrite_re("R5", r"\bname\.name\.clone\(\)", "clone_string(&name.name)", count=None, why="String::clone")
+    ar.text = ("pub fn except_from_star(name: &Ident, input: &LineageInput, except: &mut StrSet)\n"
+               "    ensures\n"
+               "        // C16 / C05: the column leaves the star exactly when it is qualified with the local name of the star's input\n"
+               "        final(except).view() == (if first_seg(*name)@ == input.name@ { old(except).view().insert(name.name) } else { old(except).view() }), // @LE3\n"
+               "{\n    " + ar.text + "\n}\n")
+    ar.rewrites.append({"rule": "slice", "what": "body of the arm `LineageColumn::Single { name: Some(name), .. } =>` (an excluded named column met while a star of the `within` list is "
+                        "processed) wrapped as fn except_from_star(name, input, except)"})
+
+    # ---- inference of a column of a wildcard table
+    ty_field = X.type_item("prqlc/prqlc-parser/src/parser/pr/types.rs", "enum", "TyTupleField").drop_attrs()
+    g = X.fn(INFERENCE, "infer_table_column")
+    gsrc = g.text
+    m = re.search(r"let exists = columns\.iter\(\)\.any\(\|c\| match c \{", gsrc)
+    if not m:
+        raise ExtractionError("infer_table_column: `let exists = columns.iter().any(|c| match c { .. })` is not where the unit expects it")
+    toks = code_tokens(gsrc)
+    k = next(i for i, t in enumerate(toks) if t[1] == m.end() - 1)
+    e = toks[match_brace(gsrc, toks, k)][2]
+    g.name = "is_column_named"
+    g.text = gsrc[m.end() - len("match c {"):e]
+    g.rewrites.append({"rule": "slice", "what": "`match c { .. }` (body of the closure given to `columns.iter().any(..)` in infer_table_column) wrapped as fn is_column_named(c, col_name)"})
+    g.rewrite_re("R5", r"\bn == col_name\b", "str_eq(n, col_name)", count=None, why="&String == &str")
+    g.shim_str_predicates()
+    g.text = ("pub fn is_column_named(c: &TyTupleField, col_name: &str) -> (r: bool)\n"
+              "    ensures\n"
+              "        // C16: a column is `already declared` only under exactly this name\n"
+              "        r == (*c is Single && c->Single_0 is Some && c->Single_0->0@ == col_name@), // @IC1\n"
+              "{\n    " + g.text + "\n}\n")
+    d = X.slice(INFERENCE, "infer_table_column", "if exists {", "columns.push(TyTupleField::Single(Some(col_name.to_string()), None));", name="declare_if_new")
+    d.rewrite_re("slice", r"return Ok\(\(\)\);", "return;", count=None, why="the slice returns nothing")
+    d.rewrite_re("R5", r"\bcol_name\.to_string\(\)", "str_to_string(col_name)", count=None, why="str::to_string")
+    d.text = ("pub fn declare_if_new(columns: &mut Vec<TyTupleField>, exists: bool, col_name: &str)\n"
+              "    ensures\n"
+              "        // C16: a new name is appended as one more named column; a declared one changes nothing\n"
+              "        exists ==> final(columns)@ == old(columns)@,\n"
+              "        !exists ==> (final(columns)@.len() == old(columns)@.len() + 1 && final(columns)@.subrange(0, old(columns)@.len() as int) == old(columns)@\n"
+              "            && final(columns)@.last() is Single && final(columns)@.last()->Single_0 is Some && final(columns)@.last()->Single_0->0@ == col_name@), // @IC2\n"
+              "{\n    " + d.text + "\n}\n")
+    d.rewrites.append({"rule": "slice", "what": "statements `if exists { return Ok(()); } columns.push(..);` of infer_table_column wrapped as fn declare_if_new(columns, exists, col_name)"})
+    return (PRELUDE + common_std.STR_PREDS + ident.text + "\n" + lc.text + "\n" + SHIMS + ty_field.text + "\n" + f.text + "\n" + ar.text + "\n" + g.text + "\n" + d.text
+            + "\n} // verus!\nfn main() {}\n")
 
 
 # ----------------------------------------------------------------------------- replay on the real compiler
@@ -110,15 +181,38 @@ def _cols(src, exp):
     return {"input": src, "expected": exp, "observed": got, "failing": got != exp, "replay_kind": "columns", "sql": sql}
 
 
+# (program, target, text the SQL must contain)
+TEXT_CASES = [
+    ("from e = employees\nselect !{e.dept}\n", "sql.duckdb", "EXCLUDE (dept)"),
+    ("from e = employees\njoin d = depts (==id)\nselect !{e.dept, d.title}\n", "sql.duckdb", "EXCLUDE (dept)"),
+    ("let staff = (from employees | filter id > 0)\nfrom staff\nselect !{dept}\nsort name\n", "sql.duckdb", "EXCLUDE (dept)"),
+    # two spellings of a column of a wildcard table: two columns, no panic
+    ("from events\nfilter Kind == \"click\"\nselect {id, kind}\n", "sql.sqlite", "kind"),
+]
+
+
+def _text(src, target, needle):
+    import replaylib
+    ok, sql = replaylib.compile_prql(src, target)
+    return {"input": src, "target": target, "expected": "SQL containing `%s`" % needle, "observed": sql[:500], "failing": (not ok and sql.startswith("PANIC")) or (ok and needle not in " ".join(sql.split())),
+            "replay_kind": "text", "needle": needle}
+
+
 def replay(failure):
     for src, exp in CASES:
         r = _cols(src, exp)
+        if r["failing"]:
+            return r
+    for src, target, needle in TEXT_CASES:
+        r = _text(src, target, needle)
         if r["failing"]:
             return r
     return {"failing": False}
 
 
 def rerun(doc):
+    if doc.get("replay_kind") == "text":
+        return _text(doc["input"], doc["target"], doc["needle"])
     return _cols(doc["input"], doc["expected"])
 
 
@@ -130,5 +224,9 @@ def sweep():
     for src, exp in CASES:
         r = _cols(src, exp)
         r["obligation"] = "lineage_except.LE1"
+        out.append(r)
+    for src, target, needle in TEXT_CASES:
+        r = _text(src, target, needle)
+        r["obligation"] = "lineage_except.IC1" if target == "sql.sqlite" else "lineage_except.LE3"
         out.append(r)
     return out
